@@ -53,10 +53,23 @@ func listenPair() (*net.UDPConn, net.Listener, error) {
 	return nil, nil, fmt.Errorf("no free udp+tcp port pair")
 }
 
+func (s *fbServer) mode() string {
+	s.mu.Lock()
+	defer s.mu.Unlock()
+	return s.udpMode
+}
+
+func (s *fbServer) setMode(m string) {
+	s.mu.Lock()
+	s.udpMode = m
+	s.mu.Unlock()
+}
+
 func (s *fbServer) serveUDP() {
 	buf := make([]byte, 4096)
+	uc := s.uc
 	for {
-		n, addr, err := s.uc.ReadFromUDP(buf)
+		n, addr, err := uc.ReadFromUDP(buf)
 		if err != nil {
 			return
 		}
@@ -65,28 +78,28 @@ func (s *fbServer) serveUDP() {
 		s.mu.Lock()
 		s.udpWire = q
 		s.mu.Unlock()
-		if s.udpDelay > 0 && (s.udpMode == "plain" || s.udpMode == "tc") {
+		if s.udpDelay > 0 && (s.mode() == "plain" || s.mode() == "tc") {
 			// a slow server: the reply comes well inside the caller's deadline, seconds after the last datagram the
 			// socket has seen (nothing else keeps the socket's read deadline moving)
-			mode := s.udpMode
+			mode := s.mode()
 			go func() {
 				time.Sleep(s.udpDelay)
-				s.uc.WriteToUDP(hx.BuildReply(q, mode == "tc", 0, [4]byte{1, 1, 1, map[bool]byte{false: 1, true: 2}[mode == "tc"]}, 60), addr)
+				uc.WriteToUDP(hx.BuildReply(q, mode == "tc", 0, [4]byte{1, 1, 1, map[bool]byte{false: 1, true: 2}[mode == "tc"]}, 60), addr)
 			}()
 			continue
 		}
-		switch s.udpMode {
+		switch s.mode() {
 		case "plain":
-			s.uc.WriteToUDP(hx.BuildReply(q, false, 0, [4]byte{1, 1, 1, 1}, 60), addr)
+			uc.WriteToUDP(hx.BuildReply(q, false, 0, [4]byte{1, 1, 1, 1}, 60), addr)
 		case "tc":
-			s.uc.WriteToUDP(hx.BuildReply(q, true, 0, [4]byte{1, 1, 1, 2}, 60), addr)
+			uc.WriteToUDP(hx.BuildReply(q, true, 0, [4]byte{1, 1, 1, 2}, 60), addr)
 		case "bigplain":
 			// a 2049..4096-octet UDP reply without TC (the upstream read buffer is 4096 octets): returned as received
-			s.uc.WriteToUDP(c16Big(hx.BuildReply(q, false, 0, [4]byte{1, 1, 1, 1}, 60), 180), addr)
+			uc.WriteToUDP(c16Big(hx.BuildReply(q, false, 0, [4]byte{1, 1, 1, 1}, 60), 180), addr)
 		case "bigtc":
-			s.uc.WriteToUDP(c16Big(hx.BuildReply(q, true, 0, [4]byte{1, 1, 1, 2}, 60), 180), addr)
+			uc.WriteToUDP(c16Big(hx.BuildReply(q, true, 0, [4]byte{1, 1, 1, 2}, 60), 180), addr)
 		case "garbage":
-			s.uc.WriteToUDP([]byte{q[0], q[1], 0xff, 0xff, 0xff}, addr)
+			uc.WriteToUDP([]byte{q[0], q[1], 0xff, 0xff, 0xff}, addr)
 		case "silent":
 		}
 	}
@@ -173,6 +186,43 @@ func runFallback(id string, parts []string) string {
 	}
 	defer u.Close()
 
+	if f["seq"] == "tcgap" {
+		// history before the measured exchange: (1) a truncated reply answered over TCP, (2) more than 3 s of uptime,
+		// (3) the server's UDP port goes away while a query is sent to it (ICMP unreachable: the upstream's UDP socket
+		// dies and has to be replaced), (4) the port is back.  The measured exchange must work like the first one of a
+		// fresh upstream: nothing of an earlier exchange (a dial deadline, a socket) may be left on the shared dialer.
+		want := s.mode()
+		s.setMode("tc")
+		c1, cancel1 := context.WithTimeout(context.Background(), 2*time.Second)
+		r1, err1 := u.ExchangeContext(c1, hx.BuildQuery(0xBEE0, name, uint16(typ), 1, true))
+		cancel1()
+		if err1 != nil || r1 == nil {
+			return "HARNESS-ERROR the first (truncated -> tcp) exchange of the history failed"
+		}
+		dnsmsg.ReleaseMsg(r1)
+		time.Sleep(time.Duration(hx.MustAtoi(f["gap"])) * time.Millisecond)
+		uc.Close()
+		for k := 0; k < 3; k++ {
+			c2, cancel2 := context.WithTimeout(context.Background(), 150*time.Millisecond)
+			if r2, err2 := u.ExchangeContext(c2, hx.BuildQuery(0xBEE1, name, uint16(typ), 1, true)); err2 == nil && r2 != nil {
+				dnsmsg.ReleaseMsg(r2)
+			}
+			cancel2()
+		}
+		uc2, err := net.ListenUDP("udp", &net.UDPAddr{IP: net.IPv4(127, 0, 0, 1), Port: port})
+		if err != nil {
+			return "HARNESS-ERROR cannot reopen the udp port"
+		}
+		defer uc2.Close()
+		s.uc = uc2
+		s.setMode(want)
+		s.udpQ.Store(0)
+		s.tcpQ.Store(0)
+		s.mu.Lock()
+		s.udpWire, s.tcpWire = nil, nil
+		s.mu.Unlock()
+		go s.serveUDP()
+	}
 	q := hx.BuildQuery(0xBEEF, name, uint16(typ), 1, true)
 	ctx, cancel := context.WithTimeout(context.Background(), dl)
 	defer cancel()
